@@ -50,5 +50,36 @@ pub(crate) fn yield_at(point: YieldPoint, index: usize) {
     let hook = HOOK.read().unwrap_or_else(|e| e.into_inner()).clone();
     if let Some(hook) = hook {
         hook(point, index);
+    } else {
+        jitter(point, index);
+    }
+}
+
+/// Timing perturbation for whole-program runs: when no hook is installed and
+/// the environment variable `VERIF_YIELD_JITTER` holds a number, about one in
+/// four yield points sleeps for a pseudo-random time of up to 1.5 ms (a
+/// deterministic function of that number, the yield point and a global call
+/// counter).
+fn jitter(point: YieldPoint, index: usize) {
+    use std::sync::atomic::{AtomicU64, Ordering};
+    use std::sync::OnceLock;
+
+    static SEED: OnceLock<Option<u64>> = OnceLock::new();
+    static CALLS: AtomicU64 = AtomicU64::new(0);
+    let seed = *SEED.get_or_init(|| {
+        std::env::var("VERIF_YIELD_JITTER").ok().and_then(|s| s.parse().ok())
+    });
+    let Some(seed) = seed else { return };
+    let n = CALLS.fetch_add(1, Ordering::Relaxed);
+    let mut x = seed
+        ^ n.wrapping_mul(0x9E37_79B9_7F4A_7C15)
+        ^ ((point as u64) << 32)
+        ^ ((index as u64) << 48);
+    x ^= x >> 33;
+    x = x.wrapping_mul(0xFF51_AFD7_ED55_8CCD);
+    x ^= x >> 33;
+    if x % 4 == 0 {
+        let micros = (x >> 8) % 1500;
+        std::thread::sleep(std::time::Duration::from_micros(micros));
     }
 }
